@@ -6,4 +6,4 @@ Extraction Language OCaml.
 Definition force_types : Z * N * nat := (Z.of_N (N.of_nat (Z.to_nat 0%Z)), 0%N, 0%nat).
 Extraction "../build/ml/mC02.ml" force_types py_int grpc_status_of_value grpc_status_val
   content_type_class http_status_error details_of decode_metadata dict_get K_GM
-  alpha outcome observe spec_allows defect d2c d2d d2f d2g.
+  alpha outcome observe spec_allows defect d2c d2d d2g.
